@@ -193,9 +193,12 @@ impl<M: EntityMatcher> TryFrom<&config::FieldMatcher> for MatchAndExpr<M> {
     type Error = ImportError;
 
     fn try_from(from: &config::FieldMatcher) -> Result<Self, ImportError> {
-        let matchers: Result<Vec<M>, _> = from
-            .fields
-            .iter()
+        // fields is a HashMap: evaluate the matchers in a stable order (by field name),
+        // otherwise which capture wins depends on the hash order of the process.
+        let mut fields: Vec<(&config::RewriteField, &String)> = from.fields.iter().collect();
+        fields.sort_by_key(|(fd, _)| fd.to_string());
+        let matchers: Result<Vec<M>, _> = fields
+            .into_iter()
             .map(|(fd, v)| (*fd, v.as_str()).try_into())
             .collect();
         let matchers = matchers?;
